@@ -115,6 +115,7 @@ let parse_op (toks : string list) : op =
   | ["hwrite"; r; h] -> OHWrite (nat r, unhex h)
   | ["hflush"; r] -> OHFlush (nat r)
   | ["hdrop"; r] -> OHDrop (nat r)
+  | ["hdropunwind"; r] -> OHDrop (nat r)     (* dropped during unwinding: a drop like any other *)
   | ["hreadtoend"; r] -> OHReadToEnd (nat r)
   | ["setsame"; _; _] -> ONop
   | ["setfault"; id; k] -> OSetFault (nat id, nat k)
